@@ -291,6 +291,80 @@ def run_table(names, alphabet, counters, digests, violations, known, fp, pairs=T
             return
 
 
+def configured_tables(rng, ntab, counters, violations, known):
+    """Tables built with NON-DEFAULT separators and regex flags (Table(..., sep_count=, sep_previous=, sep_next=,
+    regex_flags=)): rows[s1, s2] equals rows[s1].rows[s2], and rows.indices / rows.mask describe the same rows, whatever
+    the configuration; with the default flags every selector (written in the table's own separators) is also compared
+    with the reference semantics."""
+    import re as _re
+    from xdeps import Table
+    for _ in range(ntab):
+        L = rng.randrange(2, 7)
+        alphabet = rng.choice([["a", "b", "ab"], ["a", "A", "b"], ["mq", "MQ", "dr"]])
+        names = [rng.choice(alphabet) for _ in range(L)]
+        cfg = {}
+        if rng.random() < 0.6:
+            cfg["sep_count"] = rng.choice(["##", "@@"])
+        if rng.random() < 0.5:
+            cfg["sep_previous"], cfg["sep_next"] = "<~", "~>"
+        if rng.random() < 0.5:
+            cfg["regex_flags"] = rng.choice([0, _re.IGNORECASE])
+        if not cfg:
+            cfg["sep_count"] = "##"
+        sc, sp, sn = cfg.get("sep_count", "::"), cfg.get("sep_previous", "<<"), cfg.get("sep_next", ">>")
+        t = Table({"name": np.array(names, dtype=object), "x": np.arange(L, dtype=float), "v": np.arange(L, dtype=float) % 3}, **cfg)
+        counters["configured_tables"] = counters.get("configured_tables", 0) + 1
+        s2s = []
+        for nm in sorted(set(names)) + ["zz"]:
+            s2s += [(nm, nm), (nm + sc + "0", nm + "::0"), (nm + sc + "1", nm + "::1"), (nm + sc + "-1", nm + "::-1"),
+                    (nm + sp + "1", nm + "<<1"), (nm + sn + "1", nm + ">>1")]
+        s2s += [("|".join(alphabet[:2]), "|".join(alphabet[:2])), ("[ab].*" + sc + "0", "[ab].*::0"), (alphabet[0].lower() + ".*", alphabet[0].lower() + ".*")]
+        s1s = [slice(None), slice(1, None), slice(None, L - 1), [i for i in range(L) if i % 2 == 0], list(range(L))[::-1],
+               np.array([i != 1 for i in range(L)]), alphabet[0] + "|" + alphabet[-1]]
+
+        def rows_of(f):
+            try:
+                sub = f()
+                return ("v", [int(v) for v in sub._data["x"]], list(sub._data["name"]))
+            except Exception as exc:
+                return ("e", type(exc).__name__)
+        for s2, s2_default in s2s:
+            # single selector against the reference (default flags only: the statement defines the case-insensitive match)
+            if cfg.get("regex_flags", _re.IGNORECASE) == _re.IGNORECASE and not TR.kf4_literal_fast_path(names, s2_default):
+                exp = oracle(names, {"x": list(range(L)), "v": [i % 3 for i in range(L)]}, s2_default)
+                if not (exp[0] == "v" and any(i < 0 or i >= L for i in exp[1])):
+                    got = rows_of(lambda: t.rows[s2])
+                    counters["configured_single_selectors_compared"] = counters.get("configured_single_selectors_compared", 0) + 1
+                    if (exp[0] == "e") != (got[0] == "e") or (exp[0] == "v" and got[1] != exp[1]):
+                        violations.append({"what": "C08 table built with %s, index column %s: rows[%r] gives %s, the selector denotes %s" % (cfg, names, s2, got[:2], exp),
+                                           "names": names, "selector": s2})
+                        return
+            for s1 in s1s:
+                a = rows_of(lambda: t.rows[s1, s2])
+                b = rows_of(lambda: t.rows[s1].rows[s2])
+                counters["configured_pairs_compared"] = counters.get("configured_pairs_compared", 0) + 1
+                if b[0] == "v" and any(False for _ in ()):
+                    pass
+                if a != b:
+                    # offsets that land outside the sub-table are outside the statement (as in the main enumeration)
+                    if (sp in s2 or sn in s2) and "e" in (a[0], b[0]):
+                        continue
+                    violations.append({"what": "C08 composition law on a table built with %s, index column %s: rows[%s, %r] gives %s but rows[s1].rows[s2] gives %s" % (
+                        cfg, names, sel_text(s1), s2, a[:2], b[:2]), "names": names, "selector": "(%s, %r)" % (sel_text(s1), s2)})
+                    return
+                if a[0] == "v":
+                    try:
+                        ind = [int(i) for i in np.atleast_1d(t.rows.indices[s1, s2])]
+                        msk = [int(i) for i in np.where(t.rows.mask[s1, s2])[0]]
+                    except Exception as exc:
+                        violations.append({"what": "C08 table built with %s: rows.indices / rows.mask[%s, %r] raised %s although rows[...] returned" % (cfg, sel_text(s1), s2, type(exc).__name__)})
+                        return
+                    if ind != a[1] or msk != sorted(set(a[1])):
+                        violations.append({"what": "C08 table built with %s, index column %s: rows[%s, %r] gives rows %s, rows.indices %s, rows.mask %s" % (
+                            cfg, names, sel_text(s1), s2, a[1], ind, msk)})
+                        return
+
+
 def random_selector(rng, names, n):
     x = rng.random()
     distinct = sorted(set(names))
@@ -338,6 +412,8 @@ def run_shard(spec):
                 if len(violations) >= 12:
                     break
     counters["exhaustive"] = True
+    if not violations:
+        configured_tables(rng, spec.get("configured", 150), counters, violations, known)
     pool = ["mq%d" % i for i in range(6)] + ["drift", "dq", "MQ1", "marker", "", "1", "q.1"]
     for i in range(spec["random_tables"]):
         n = rng.randrange(5, 200)
